@@ -1,6 +1,7 @@
 import FluteModel.Drv.Util
 import FluteModel.Partition
 import FluteModel.Session
+import FluteModel.Sched
 /-
   Line-protocol driver of the session model (engine `e2e`).
 
@@ -8,7 +9,7 @@ import FluteModel.Session
         -> ok n=<packets> h=<digest of (toi, fdt id, sbn, esi, B) of every packet> refused=<object indices>
     e2e full | mask <bits> | dup <digits> | join <offset>
         -> fdt=<instances completed> <toi>:o<opens>c<completes>e<errors>i<interrupted> ...
-    e2e probe | jprobe <offset> -> done      (run judged by the implementation-side oracle only)
+    e2e probe | jprobe <offset> | mprobe <bits> -> done      (run judged by the implementation-side oracle only)
 -/
 namespace Flute.Drv.E2e
 open Flute Flute.Session
@@ -105,6 +106,42 @@ def parseSched (toks : List String) : Option (List Slot) :=
       | [] => none
   go toks []
 
+def parseCar (s : String) : Option (Option Sched.Carousel) :=
+  if s == "-" then some none else
+  match s.toList with
+  | 'd' :: r => (String.ofList r).toNat?.map (fun v => some (Sched.Carousel.delay v))
+  | 'i' :: r => (String.ofList r).toNat?.map (fun v => some (Sched.Carousel.interval v))
+  | _ => none
+
+/-- **Differential against the scheduler model** (`FluteModel/Sched.lean`, properties C11-C14, engine `sched`).
+    The session model takes the interleaving of the sources from the implementation (`s` section).  Here the
+    scheduler model is run on the session's configuration - queues and multiplex, publish mode, FDT carousel, each
+    object's queue / transfer count / carousel mode / packets per transfer (from the model's own block encoder),
+    the engine's clock (a read every `dt` µs after a packet, every `idle` µs after nothing) - and must name, packet
+    by packet, the same source.  `none` = agreement. -/
+def schedDiverge (full : Bool) (fcar : Sched.Carousel) (mux : List Nat) (dt idle : Nat)
+    (adds : List (Nat × Sched.AddArgs)) (fdtPk : List Nat) (sched : List Slot) : Option String :=
+  let cfg : Sched.Cfg :=
+    { mode := if full then .full else .being, fdtCarousel := fcar, fdtDuration := 3600000000, fdtStartId := 1,
+      queues := (List.range mux.length).zip mux }
+  let st0 := Sched.init cfg fdtPk
+  let st1 := adds.foldl (fun st (toi, a) => (Sched.addObject { st with nextToi := toi } a).1) st0
+  let now0 := 1750000000000000
+  let st2 := if full then Sched.publishOp st1 now0 else st1
+  let rec go : Nat → Sched.State → Nat → Nat → List Slot → Nat → Option String
+    | 0, _, _, _, _, i => some s!"fuel@{i}"
+    | _, _, _, _, [], _ => none
+    | fuel + 1, st, now, idles, k :: rest, i =>
+      match Sched.read { st with log := [] } now [] with
+      | (st', .pkt _ toi _ _) =>
+        if k == Slot.obj toi then go fuel st' (now + dt) 0 rest (i + 1) else some s!"{i}:O{toi}"
+      | (st', .fdt _ id _) =>
+        if k == Slot.fdt id then go fuel st' (now + dt) 0 rest (i + 1) else some s!"{i}:F{id}"
+      | (st', .none) =>
+        if idles > 400 then some s!"{i}:idle" else go fuel st' (now + (if idle = 0 then 1 else idle)) (idles + 1) (k :: rest) i
+      | (_, .hang) => some s!"{i}:hang"
+  go (sched.length * 402 + 402) st2 now0 0 sched 0
+
 inductive SessRes where
   | bad
   | out (line : String) (l : Option Loaded)
@@ -186,7 +223,32 @@ def loadSession (toks : List String) : SessRes :=
           | none => .out "sched-mismatch" none
           | some stream =>
             let r := if refusedIdx.isEmpty then "-" else ",".intercalate (refusedIdx.map toString)
-            .out s!"ok n={stream.length} h={digest stream} refused={r}"
+            -- the scheduler model must produce the same interleaving (sessions of up to 6000 packets)
+            let trLen (k : Slot) : Nat := match srcs.find? (fun x => x.slot == k) with | some x => x.tr.length | none => 0
+            let addsRaw : Option (List (Option (Nat × Sched.AddArgs))) := osecs.mapM (fun (sec : List String) =>
+              let kv := kvOf (sec.drop 1)
+              match look kv "toi", (look kv "q").bind (·.toNat?), (look kv "m").bind (·.toNat?), (look kv "car").bind parseCar with
+              | some "-", _, _, _ => some none
+              | some t, some q, some m, some car =>
+                t.toNat?.map (fun toi =>
+                  let a : Sched.AddArgs := { prio := q, nSym := trLen (Slot.obj toi), maxCount := m, carousel := car, start := none, target := none, allowStop := false }
+                  some (toi, a))
+              | _, _, _, _ => none)
+            let adds : Option (List (Nat × Sched.AddArgs)) := addsRaw.map (fun l => l.filterMap id)
+            let maxId := fdts.foldl (fun a f => max a f.id) 0
+            let fdtPk := (List.range maxId).map (fun k => match fdts.find? (fun f => f.id == k + 1) with
+              | some f => trLen (Slot.fdt f.id) | none => 1)
+            let mux? := (look kv "mux").bind (fun m => (m.splitOn ",").mapM (·.toNat?))
+            let sd : String :=
+              if stream.length > 6000 then "" else
+              match adds, (look kv "mode"), (look kv "fcar").bind parseCar, mux?, (look kv "dt").bind (·.toNat?),
+                    (look kv "idle").bind (·.toNat?) with
+              | some adds, some mode, some (some fcar), some mux, some dt, some idle =>
+                match schedDiverge (mode == "full") fcar mux dt idle adds fdtPk sched with
+                | none => ""
+                | some m => " SCHED-DIVERGE " ++ m
+              | _, _, _, _, _, _ => " SCHED-DIVERGE parse"
+            .out (s!"ok n={stream.length} h={digest stream} refused={r}" ++ sd)
               (some { cfg := cfg, rc := rc, stream := stream, objs := objs })
       | _, _, _ => .bad
     | _, _, _, _ => .bad
@@ -212,6 +274,7 @@ def step (st : St) (args : List String) : St × String :=
     | .out line l => ({ cur := l }, line)
   | ["probe"] => (st, "done")
   | ["jprobe", _] => (st, "done")
+  | ["mprobe", _] => (st, "done")
   | ["full"] =>
     match st.cur with
     | none => (st, "no-session")
